@@ -59,6 +59,11 @@ def _subst(sr, pairs):
 
 
 def convert(E, method, dc, dc_unit, ec, ec_unit):
+    # another converter with different characteristic values has been created and used before in the same process:
+    # converters are independent of each other
+    decoy = pyPRISM.util.UnitConverter(dc=dc * 3.0, dc_unit='angstrom' if dc_unit == 'nanometer' else 'nanometer', ec=ec * 7.0, ec_unit=ec_unit)
+    for m_ in ('toKelvin', 'toInvAngstrom', 'toInvNanometer', 'toConcentration'):
+        getattr(decoy, m_)(1.0)
     uc = pyPRISM.util.UnitConverter(dc=dc, dc_unit=dc_unit, ec=ec, ec_unit=ec_unit)
     x = E.real('x', default=1.7)
     d = E.real('d', pos=True, default=0.8)
@@ -69,8 +74,8 @@ def convert(E, method, dc, dc_unit, ec, ec_unit):
         return
     E.reachable('convert')
     E.claim_true('is-a-quantity', hasattr(q, 'magnitude') and hasattr(q, 'units'))
-    E.claim_true('units==%s' % units, str(q.units) == units or (units == 'dimensionless' and q.dimensionless and str(q.to_base_units().units) == 'dimensionless'))
-    mag = q.magnitude if units != 'dimensionless' else q.to_base_units().magnitude
+    E.claim_true('units==%s' % units, str(q.units) == units)
+    mag = q.magnitude          # what a user reads off the returned quantity
     arg = x * d * d * d if method == 'toVolumeFraction' else x
     if E.sym:
         m = SR.lift(mag)
@@ -88,8 +93,13 @@ def convert(E, method, dc, dc_unit, ec, ec_unit):
     arr = _np.empty(2, dtype=object if E.sym else float)
     arr[0] = x; arr[1] = E.real('x2', default=-0.4)
     aargs = (arr, d) if method == 'toVolumeFraction' else (arr,)
+    a_snap = [arr[0], arr[1]]
     qa, exc = E.expect_no_raise('%s-array-returns' % method, lambda: getattr(uc, method)(*aargs))
+    E.claim_true('caller-array-unmodified', all((arr[i] is a_snap[i]) if E.sym else (arr[i] == a_snap[i]) for i in range(2)))
     if exc is None:
-        ma = qa.magnitude if units != 'dimensionless' else qa.to_base_units().magnitude
+        ma = qa.magnitude
         E.claim_true('array-shape', _np.shape(ma) == (2,))
         E.claim_eq('array-elementwise[0]', ma[0], mag)
+        qb, exc2 = E.expect_no_raise('%s-array-second-call-returns' % method, lambda: getattr(uc, method)(*aargs))
+        if exc2 is None:
+            E.claim_eq('array-second-call-same[0]', qb.magnitude[0], mag)
